@@ -19,7 +19,12 @@ const verifC17Hash = "aaaaaaaaaaaaaaaaaaaaaaaaaaaaaaaaaaaaaaaaaaaaaaaaaaaaaaaaaa
 // (user.Used <= PeriodicLimit, global Used <= GlobalLimit) under an arbitrary configuration
 // accepted by the contract's own validate(); the invariant must hold on the persisted
 // post-state and the poured amount must be backed by the faucet balance.
-func VerifC17_pour() {
+func VerifC17_pour() { verifC17Run(false) }
+
+// VerifC04_pour: the same step, asserting only who pays (C04 attribution rule).
+func VerifC04_pour() { verifC17Run(true) }
+
+func verifC17Run(onlyAuth bool) {
 	fc := NewFaucetSmartContract().(*FaucetSmartContract)
 	t := &transaction.Transaction{}
 	t.ClientID = verifC17Client
@@ -75,6 +80,13 @@ func VerifC17_pour() {
 	_, err := fc.Execute(t, "pour", nil, balances)
 
 	tr := balances.GetTransfers()
+	if onlyAuth {
+		if err == nil {
+			sym.Cover("pour-accepted")
+			symstate.AssertAuthorised(balances, t, ADDRESS)
+		}
+		return
+	}
 	if err != nil {
 		sym.Cover("pour-rejected")
 		return
